@@ -12,13 +12,12 @@ BIND_RE = re.compile(r"(?<![:\w\\]):(\w+)(?!:)|\\:")
 
 
 def text_hazard(q):
-    """values that SQLAlchemy's text() or the SQLite tokenizer treat specially: outside the model"""
+    """values that the SQLite tokenizer cannot take inside statement text (NUL): outside the model.  (Values that
+    SQLAlchemy's text() used to rewrite — ':word', '\\:' — are ordinary values since the fix: commit that escapes colons.)"""
     for name, vals in (q.tags or []):
         for v in list(vals) + [name]:
-            if "\x00" in v or BIND_RE.search(v) or "\\" in v or v == "'" and v is name:
+            if "\x00" in v:
                 return True
-        if name == "'" or "\x00" in name or ":" in name or "\\" in name:
-            return True
     return False
 
 
